@@ -4,9 +4,9 @@ package main
 // float model. Everything here is part of the trusted base and is listed in evidence.
 
 import (
-	"sort"
 	"fmt"
 	"go/types"
+	"sort"
 	"strings"
 
 	"golang.org/x/tools/go/ssa"
